@@ -87,6 +87,9 @@ def gen_cases(tier, rng):
     return cases
 
 
+_PRE = {}
+
+
 def run_case(case, ctx):
     import quantarhei as qr
     from quantarhei.qm.oscillators.ho import operator_factory
@@ -162,33 +165,38 @@ def run_case(case, ctx):
     nmol = len(mols_d)
     mult = case["mult"]
     with ctx.lib("vibronic aggregate construction"):
+      if _PRE.get("agg") is not None:
+        # second pass: the SAME aggregate object, rebuilt after a mode parameter was changed
+        agg, modes_of = _PRE.pop("agg"), _PRE.pop("modes_of")
+        J = numpy.array(case["J"])
+      else:
         mols = []
         modes_of = []
         with qr.energy_units("1/cm"):
-            for m in mols_d:
-                mol = qr.Molecule([0.0, m["E"]])
-                mm = []
-                for md in m["modes"]:
-                    mo = qr.Mode(md["omega"])
-                    mol.add_Mode(mo)
-                    mo.set_nmax(0, md["n0"])
-                    mo.set_nmax(1, md["n1"])
-                    mo.set_HR(1, md["hr"])
-                    mm.append(mo)
-                mol.set_dipole(0, 1, m["dip"])
-                mols.append(mol)
-                modes_of.append(mm)
-            agg = qr.Aggregate(molecules=mols)
-            J = numpy.array(case["J"])
-            for a in range(nmol):
-                for b in range(a + 1, nmol):
-                    if J[a, b] != 0:
-                        agg.set_resonance_coupling(a, b, float(J[a, b]))
+              for m in mols_d:
+                  mol = qr.Molecule([0.0, m["E"]])
+                  mm = []
+                  for md in m["modes"]:
+                      mo = qr.Mode(md["omega"])
+                      mol.add_Mode(mo)
+                      mo.set_nmax(0, md["n0"])
+                      mo.set_nmax(1, md["n1"])
+                      mo.set_HR(1, md["hr"])
+                      mm.append(mo)
+                  mol.set_dipole(0, 1, m["dip"])
+                  mols.append(mol)
+                  modes_of.append(mm)
+              agg = qr.Aggregate(molecules=mols)
+              J = numpy.array(case["J"])
+              for a in range(nmol):
+                  for b in range(a + 1, nmol):
+                      if J[a, b] != 0:
+                          agg.set_resonance_coupling(a, b, float(J[a, b]))
         agg.build(mult=mult)
-        H = numpy.array(agg.get_Hamiltonian().data)
-        DD = numpy.array(agg.get_TransitionDipoleMoment().data)
-        sigs = [(tuple(int(x) for x in e), tuple(int(x) for x in v)) for (e, v) in agg.vibsigs]
-        Jint = numpy.array(agg.resonance_coupling)
+      H = numpy.array(agg.get_Hamiltonian().data)
+      DD = numpy.array(agg.get_TransitionDipoleMoment().data)
+      sigs = [(tuple(int(x) for x in e), tuple(int(x) for x in v)) for (e, v) in agg.vibsigs]
+      Jint = numpy.array(agg.resonance_coupling)
     # mode list in aggregate order: (molecule index, mode descriptor)
     mlist = [(mi, md) for mi, m in enumerate(mols_d) for md in m["modes"]]
 
@@ -275,5 +283,25 @@ def run_case(case, ctx):
     ctx.event("hamiltonian_elements_compared", nH)
     ctx.event("dipole_elements_compared", nD)
     has_hr = any(md["hr"] > 0 and max(md["n0"], md["n1"]) > 1 for (_, md) in mlist)
-    ctx.key(("agg", nmol, mult, tuple((mi, md["n0"], md["n1"], md["hr"]) for (mi, md) in mlist), tuple(numpy.round(J.ravel(), 2))))
+    ctx.key(("agg", nmol, mult, tuple((mi, md["n0"], md["n1"], md["hr"]) for (mi, md) in mlist), tuple(numpy.round(J.ravel(), 2)), case.get("stage", "first build")))
     ctx.nontrivial(has_hr and (scaleJ > 0 or scaleD > 0))
+    if case.get("stage") is None and mlist and not ctx.violations and case.get("ntot", 0) <= 120:
+        # a Huang-Rhys factor is changed on the mode object and the same aggregate is built again: everything follows the new value
+        import copy as _copy
+        c2 = _copy.deepcopy(case)
+        c2["stage"] = "after set_HR and rebuild"
+        k = 0
+        for mi, m in enumerate(c2["mols"]):
+            for kk, md in enumerate(m["modes"]):
+                if k == 0:
+                    md["hr"] = float("%.4g" % (md["hr"] * 1.6 + 0.25))
+                    with ctx.lib("Mode.set_HR on a built aggregate, then rebuild"):
+                        modes_of[mi][kk].set_HR(1, md["hr"])
+                        if case["mult"] == 2:
+                            agg.rebuild(mult=2)
+                        else:
+                            agg.rebuild()
+                k += 1
+        _PRE["agg"], _PRE["modes_of"] = agg, modes_of
+        ctx.event("aggregates_rebuilt_after_a_mode_change")
+        return run_case(c2, ctx)
